@@ -123,7 +123,9 @@ fn cell_value<'a, F: Field, Q: Into<AnyQuery> + Copy>(
                     cell.clone().into(),
                     match load(query) {
                         Value::Real(v) => format_value(v),
-                        Value::Poison => unreachable!(),
+                        // A cell of a blinding row: its contribution was cancelled by a zero
+                        // factor, otherwise the gate would have been reported as poisoned.
+                        Value::Poison => "<blinding row>".to_string(),
                     },
                 )
             })
